@@ -23,6 +23,10 @@ Over(c) == LET L == c.limit IN
    << D(c, FALSE, L), C(c, TRUE, 1) >>,
    << D(c, FALSE, 1), Ping(c), C(c, TRUE, L) >>,
    << D(c, FALSE, L - 1), C(c, FALSE, 1), C(c, TRUE, 1) >>,
+   \* the running sum crosses L at a NON-final frame
+   << D(c, FALSE, L + 1), C(c, TRUE, 0) >>,
+   << D(c, FALSE, L - 1), C(c, FALSE, 2), C(c, TRUE, 1) >>,
+   << D(c, FALSE, L), Ping(c), C(c, FALSE, 1), C(c, FALSE, 1), C(c, TRUE, 0) >>,
    << Huge(D(c, TRUE, 3), "max") >>,
    << Huge(D(c, TRUE, 3), "top") >>,
    << D(c, FALSE, 1), Huge(C(c, TRUE, 3), "max") >>,
